@@ -82,7 +82,9 @@ def gen(rng):
     steps = L['steps']
     home, uid, env = L['home'], L['uid'], dict(L['env'])
     ht = G.home_trash_of(env)
-    names = rng.choice([['foo'], ['foo'], ['foo', 'bar'], ['a b', 'foo'], ['x' * 200], ['L' * 250], ['é' * 120 + 'z' * 8]])
+    names = rng.choice([['foo'], ['foo'], ['foo', 'bar'], ['a b', 'foo'], ['x' * 200], ['L' * 250], ['é' * 120 + 'z' * 8],
+                        # names that contain the info suffix, next to their stems: info/N.trashinfo is the only lock on files/N
+                        ['notes.trashinfo', 'notes'], ['x.trashinfo.trashinfo', 'x.trashinfo', 'x']])
     case = {'world': {'mounts': L['mounts'], 'steps': steps}, 'dirsalt': rng.randrange(1 << 30), 'mode': mode}
     state = rng.choice(['absent', 'absent', 'present', 'filled', 'filled', 'orphans'])
     if mode == 'crowded':
